@@ -899,6 +899,21 @@ pub fn c10_check(case: &Case, counts: &mut std::collections::BTreeMap<String, u6
         check_structure(&r32, &w, case.exact_f32, &mut StructStats::default()).map_err(|m| ("f32:structure".to_string(), format!("{} (f32): {}", op.name(), m)))?;
         let assembled = !bboxes_disjoint(&case.a, &case.b);
         check_provenance(case, &r32, case.tol(true), assembled, &mut ProvStats::default()).map_err(|m| ("f32:provenance".to_string(), format!("{} (f32): {}", op.name(), m)))?;
+        if case.family == "D6-shallow" {
+            // inputs are identical in both precisions and all crossings are well separated: the two results must have
+            // the same combinatorial structure, vertex for vertex within the f32 tolerance (a crossing that one
+            // precision misses - e.g. classified as parallel - shows as a missing vertex even where the wedge between
+            // the two shallow edges is too thin for a witness point)
+            let r64 = run(&case.a, &case.b, op, false)?;
+            *counts.entry("f32_vs_f64_structure_comparisons".into()).or_insert(0) += 1;
+            let verts = |mp: &MP| -> Vec<Pt> { rings(mp).flat_map(|r| open_ring(r).into_iter()).collect() };
+            let (v32, v64) = (verts(&r32), verts(&r64));
+            let tol = case.tol(true).max(1e-30);
+            let near = |p: Pt, set: &Vec<Pt>| set.iter().any(|q| (p.0 - q.0).abs() <= tol && (p.1 - q.1).abs() <= tol);
+            if r32.len() != r64.len() || rings(&r32).count() != rings(&r64).count() || v32.len() != v64.len() || !v32.iter().all(|p| near(*p, &v64)) || !v64.iter().all(|p| near(*p, &v32)) {
+                return Err(("f32:differs-from-f64".into(), format!("{}: f32 result {:?} and f64 result {:?} of the same (exactly representable) input differ in structure or by more than {:e}", op.name(), r32, r64, tol)));
+            }
+        }
         if case.exact_f32 && small {
             let r64 = run(&case.a, &case.b, op, false)?;
             *counts.entry("f32_vs_f64_exact_comparisons".into()).or_insert(0) += 1;
